@@ -298,8 +298,7 @@ pub fn run(tier: &str, rec: &Recorder) -> RunOutput {
     out
 }
 
-pub fn replay(case: &str) -> bool {
-    let rec = Recorder::new("C01", &[]);
+pub fn replay(case: &str, rec: &Recorder) -> bool {
     if let Some(pc) = parse_case(case) {
         if pc.hist.is_empty() {
             return false;
@@ -326,11 +325,11 @@ pub fn replay(case: &str) -> bool {
             let mut c = Counters::default();
             C01Oracle.transition(
                 &Trans { spec_idx: pc.spec_idx, specs: &specs, alphabet: &pc.alphabet, hist: pre, op_idx: last[0], op, before: &before, after: &after, g_after: &g, real_res: &real_res, ref_before: &ref_before, ref_after: &ref_after, ref_res: &ref_res },
-                &rec,
+                rec,
                 &mut c,
             );
         }
-        return rec.has_unknown();
+        return rec.has_any();
     }
     println!("replay of new_from cases: re-run the check; case = {case}");
     false
